@@ -1211,6 +1211,9 @@ class DigitalWaveform(Generic[TDigitalState]):
 
         new_timing = self._timing._append_timestamps(timestamps)
 
+        if np.may_share_memory(array, self._data):
+            # Growing the buffer can move or resize the memory that the input array refers to.
+            array = array.copy()
         self._increase_capacity(len(array))
 
         # Copy the samples before updating the timing so that a failed copy (for example, into a
